@@ -608,6 +608,25 @@ pub const GO_BUDGETED: &[(&str, Option<u64>)] = &[
     ("go wtime 30000 btime 30000 winc 500 binc 500 movestogo 20", None),
 ];
 
+/// The same limits in the other order, and clocks combined with each of the other limiting tokens
+/// before and after them: whichever token comes last must not switch the clock off. Single
+/// commands on a fresh engine (every position).
+pub const GO_BUDGETED_ORDERS: &[(&str, Option<u64>)] = &[
+    ("go movetime 60 depth 40", Some(60)),
+    ("go movetime 45 mate 5", Some(45)),
+    ("go movetime 35 movestogo 10", Some(35)),
+    ("go movetime 25 depth 64", Some(25)),
+    ("go depth 64 movetime 25", Some(25)),
+    ("go wtime 6000 btime 6000 winc 0 binc 0 depth 40", None),
+    ("go depth 40 wtime 6000 btime 6000 winc 0 binc 0", None),
+    ("go wtime 6000 btime 6000 winc 0 binc 0 nodes 1000000", None),
+    ("go nodes 1000000 wtime 6000 btime 6000 winc 0 binc 0", None),
+    ("go wtime 6000 btime 6000 winc 0 binc 0 mate 5", None),
+    ("go mate 5 wtime 6000 btime 6000 winc 0 binc 0", None),
+    ("go movestogo 10 wtime 30000 btime 30000 winc 500 binc 500", None),
+    ("go wtime 9000 btime 9000 winc 100 binc 100 depth 30 nodes 1000000", None),
+];
+
 /// Only where a search of that size is cheap (not on the explosion positions' cap)
 pub const GO_LONG_BUDGET: (&str, Option<u64>) = ("go movetime 20000", Some(20000));
 
@@ -688,6 +707,11 @@ fn go_histories(rep: &Report, thorough: bool) -> (J, u64, u64) {
             hs.push(vec![(pc.clone(), None), (g.to_string(), Some(*b))]);
         }
     }
+    for (_, pc, _) in &all_positions {
+        for (g, b) in GO_BUDGETED_ORDERS {
+            hs.push(vec![(pc.clone(), None), (g.to_string(), Some(*b))]);
+        }
+    }
     let singles = hs.len();
     // two commands: any first go on a normal position, then a budgeted go on any position,
     // with and without ucinewgame in between
@@ -712,6 +736,31 @@ fn go_histories(rep: &Report, thorough: bool) -> (J, u64, u64) {
             }
         }
     }
+    // a long think after a search that saw the world very differently: the first search ends with
+    // a score far above or below what the second will find (a queen up, a queen down, a forced
+    // mate), the second has a budget in which several iterations complete (depth 4-6): whatever the
+    // engine remembers of the first (an expected score, a best move that is no longer there) must
+    // not stretch the second beyond its budget
+    let contrast_first: [(&str, &str); 5] = [
+        ("white a queen up", "position fen rnb1kbnr/pppp1ppp/8/4p3/4P3/8/PPPP1PPP/RNBQKBNR w KQkq - 0 3"),
+        ("white a queen down", "position fen rnbqkbnr/pppp1ppp/8/4p3/4P3/8/PPPP1PPP/RNB1KBNR w KQkq - 0 3"),
+        ("white mates in two", "position fen 6k1/5ppp/8/8/8/8/5PPP/1R1R2K1 w - - 0 1"),
+        ("black a rook up", "position fen rnbqkbnr/pppppppp/8/8/8/8/PPPPPPPP/1NBQKBNR b Kkq - 0 1"),
+        ("start position", "position startpos"),
+    ];
+    let contrast_second: [&str; 3] = ["position startpos moves e2e4 e7e5", "position fen r1bq1rk1/ppp2ppp/2np1n2/2b1p3/2B1P3/2PP1N2/PP3PPP/RNBQ1RK1 w - - 0 7", "position fen 8/5pk1/6p1/R7/5P2/6P1/r4K2/8 w - - 0 40"];
+    let contrast_go: [(&str, Option<u64>); 3] = [("go movetime 8000", Some(8000)), ("go movetime 20000", Some(20000)), ("go wtime 300000 btime 300000 winc 0 binc 0", None)];
+    let before_contrast = hs.len();
+    for (_, pa) in contrast_first {
+        for first in ["go depth 4", "go depth 5", "go movetime 3000"] {
+            for pb in contrast_second {
+                for (g, b) in contrast_go {
+                    hs.push(vec![(pa.to_string(), None), (first.to_string(), None), (pb.to_string(), None), (g.to_string(), Some(b))]);
+                }
+            }
+        }
+    }
+    let contrast = hs.len() - before_contrast;
     let results: Vec<(u64, u64, u64)> = par_map(&hs, |h| go_history(rep, h));
     let judged: u64 = results.iter().map(|r| r.0).sum();
     let hits: u64 = results.iter().map(|r| r.1).sum();
@@ -720,12 +769,13 @@ fn go_histories(rep: &Report, thorough: bool) -> (J, u64, u64) {
     let part = J::obj()
         .set("histories", hs.len())
         .set("single_command_histories", singles)
+        .set("long_think_after_a_search_with_a_very_different_score", contrast)
         .set("budgeted_go_commands_judged", judged)
         .set("deadline_fell_inside_search", hits)
         .set("max_nodes_after_deadline", worst)
         .set("positions", all_positions.iter().map(|p| p.1.clone()).collect::<Vec<_>>())
         .set("first_commands", GO_SETTERS.iter().map(|g| g.to_string()).chain(GO_BUDGETED.iter().map(|g| g.0.to_string())).collect::<Vec<_>>())
-        .set("judged_commands", GO_BUDGETED.iter().map(|g| g.0.to_string()).chain(std::iter::once(GO_LONG_BUDGET.0.to_string())).collect::<Vec<_>>())
+        .set("judged_commands", GO_BUDGETED.iter().map(|g| g.0.to_string()).chain(std::iter::once(GO_LONG_BUDGET.0.to_string())).chain(GO_BUDGETED_ORDERS.iter().map(|g| format!("{} (single command)", g.0))).collect::<Vec<_>>())
         .set("rule", "history = position A; go a; [ucinewgame]; position B; go b on a fresh engine through the real command handler under the node clock (1 node = 1 ms); A over the normal positions, a over all first commands, B over all positions incl. the quiescence-explosion ones, b over the budgeted commands; every budgeted go must end within budget + limit nodes (budget = the movetime given, or the limit the engine itself derived from the clocks)");
     (part, judged, hits)
 }
